@@ -22,24 +22,26 @@
 (***************************************************************************)
 EXTENDS Integers, Sequences, FiniteSets, TLC, Json, CSV, IOUtils, SequencesExt, DeBruijn
 
-CONSTANTS GConfigs   \* set of records [alpha, n (max length), m (max number of sequences), cs (count tuples), ks]
+CONSTANTS GConfigs   \* set of records [alpha, ns (max length of each sequence, decreasing), cs (count tuples), ks]
 
 VARIABLES S, C, k, done, res
 vars == <<S, C, k, done, res>>
 
 GQuickConfigs ==
-  {[alpha |-> {"a", "c", "g", "t"}, n |-> 5, m |-> 1, cs |-> {<<1>>, <<3>>}, ks |-> {2}],
-   [alpha |-> {"a", "c", "g", "t"}, n |-> 6, m |-> 1, cs |-> {<<3>>},        ks |-> {3}],
-   [alpha |-> {"a", "c", "g"},      n |-> 3, m |-> 2, cs |-> {<<1, 2>>},     ks |-> {2}],
-   [alpha |-> {"a", "c", "g"},      n |-> 4, m |-> 2, cs |-> {<<1, 2>>},     ks |-> {3}],
-   [alpha |-> {"a", "c", "n"},      n |-> 4, m |-> 1, cs |-> {<<2>>},        ks |-> {2, 3}],
-   [alpha |-> {"a", "g", "r"},      n |-> 3, m |-> 2, cs |-> {<<2, 1>>},     ks |-> {2}]}
+  {[alpha |-> {"a", "c", "g", "t"}, ns |-> <<5>>,    cs |-> {<<3>>},    ks |-> {2}],
+   [alpha |-> {"a", "c", "g", "t"}, ns |-> <<6>>,    cs |-> {<<3>>},    ks |-> {3}],
+   [alpha |-> {"a", "c", "g"},      ns |-> <<3, 3>>, cs |-> {<<1, 2>>}, ks |-> {2}],
+   [alpha |-> {"a", "c", "g"},      ns |-> <<4, 3>>, cs |-> {<<1, 2>>}, ks |-> {3}],
+   [alpha |-> {"a", "c", "n"},      ns |-> <<4>>,    cs |-> {<<2>>},    ks |-> {2, 3}],
+   [alpha |-> {"a", "g", "r"},      ns |-> <<3, 2>>, cs |-> {<<2, 1>>}, ks |-> {2}]}
 GThoroughConfigs ==
-  {[alpha |-> {"a", "c", "g", "t"}, n |-> 7, m |-> 1, cs |-> {<<1>>, <<3>>},       ks |-> {2, 3, 4}],
-   [alpha |-> {"a", "c", "g"},      n |-> 5, m |-> 2, cs |-> {<<1, 2>>, <<1, 1>>}, ks |-> {2, 3}],
-   [alpha |-> {"a", "c", "g", "n"}, n |-> 5, m |-> 1, cs |-> {<<2>>},              ks |-> {2, 3}],
-   [alpha |-> {"a", "g", "r", "b"}, n |-> 3, m |-> 2, cs |-> {<<2, 1>>},           ks |-> {2, 3}],
-   [alpha |-> {"a", "c"},           n |-> 4, m |-> 3, cs |-> {<<1, 2, 4>>},        ks |-> {2, 3}]}
+  {[alpha |-> {"a", "c", "g", "t"}, ns |-> <<6>>,    cs |-> {<<1>>, <<3>>}, ks |-> {2}],
+   [alpha |-> {"a", "c", "g", "t"}, ns |-> <<7>>,    cs |-> {<<3>>},        ks |-> {3, 4}],
+   [alpha |-> {"a", "c", "g"},      ns |-> <<4, 4>>, cs |-> {<<1, 2>>, <<1, 1>>}, ks |-> {2, 3}],
+   [alpha |-> {"a", "c", "g"},      ns |-> <<6, 4>>, cs |-> {<<1, 2>>},     ks |-> {3, 4}],
+   [alpha |-> {"a", "c", "g", "n"}, ns |-> <<5>>,    cs |-> {<<2>>},        ks |-> {2, 3}],
+   [alpha |-> {"a", "g", "r", "b"}, ns |-> <<3, 3>>, cs |-> {<<2, 1>>},     ks |-> {2, 3}],
+   [alpha |-> {"a", "c"},           ns |-> <<5, 4, 3>>, cs |-> {<<1, 2, 4>>}, ks |-> {2, 3}]}
 
 GSeqsUpTo(A, n) == UNION {[1..j -> A] : j \in 0..n}
 
@@ -50,7 +52,8 @@ Nothing == [W |-> <<>>, ch |-> <<FALSE, 0>>]
 
 Init == /\ \E c \in GConfigs : /\ k \in c.ks
                                /\ C \in c.cs
-                               /\ S \in [1..Len(C) -> GSeqsUpTo(c.alpha, c.n)]
+                               /\ S \in [1..Len(c.ns) -> GSeqsUpTo(c.alpha, c.ns[1])]
+                               /\ \A i \in 1..Len(c.ns) : Len(S[i]) <= c.ns[i]
         /\ done = FALSE
         /\ res = Nothing
 
